@@ -181,3 +181,12 @@
 (declare-fun gFoldRecover (Sl.Fn Bool) Bool)
 (assert (forall ((b Bool)) (! (= (gFoldRecover Sl.Fn.empty b) b) :pattern ((gFoldRecover Sl.Fn.empty b)))))
 (assert (forall ((s Sl.Fn) (f Fn) (b Bool)) (! (= (gFoldRecover (Sl.Fn.snoc s f) b) (ite ((_ is fn.grammar.Recover$1) f) (fn.grammar.Recover$1.c0 f) (gFoldRecover s b))) :pattern ((gFoldRecover (Sl.Fn.snoc s f) b)))))
+; ---- actions (C15, C07): a parsed []any of strings as a []string ---------------------
+(declare-fun strsOf (Sl.Any) Sl.Str)
+(declare-fun allStrings (Sl.Any) Bool)
+(assert (= (strsOf Sl.Any.empty) Sl.Str.empty))
+(assert (forall ((s Sl.Any) (x Any)) (! (= (strsOf (Sl.Any.snoc s x)) (Sl.Str.snoc (strsOf s) (unbox.string x))) :pattern ((strsOf (Sl.Any.snoc s x))))))
+(assert (forall ((s Sl.Any) (i Int)) (! (=> (and (allStrings s) (<= 0 i) (< i (Sl.Any.len s))) (= (dyn (Sl.Any.at s i)) tag.string)) :pattern ((allStrings s) (Sl.Any.at s i)))))
+; pointerstructure.Parse (A-PS): RFC 6901 decoding of "/a/b~1c"
+(declare-fun psParseOK (Str) Bool)
+(declare-fun psParts (Str) Sl.Str)
